@@ -1,6 +1,6 @@
 From Coq Require Import Sorting.Sorted.
 From Stam Require Import Base.Tac Model.Offset Model.Store Model.StoreObs Spec.StoreSpec
-     Proofs.StoreScan Proofs.StoreInv Proofs.StoreDataDef Proofs.StoreRemove Proofs.StoreData Proofs.StoreStable Model.Compress Proofs.Compress Proofs.StoreSel Model.SubOrder Proofs.SubOrder Model.SubOrderArms Gen.SubOrderTable Proofs.AgreeSubOrder Props.C01.
+     Proofs.StoreScan Proofs.StoreInv Proofs.StoreDataDef Proofs.StoreRemove Proofs.StoreData Proofs.StoreStable Model.Compress Proofs.Compress Proofs.StoreSel Model.SubOrder Proofs.SubOrder Model.SubOrderArms Gen.SubOrderTable Proofs.AgreeSubOrder Model.Forward Proofs.Forward Props.C01.
 From Stam Require Proofs.ValidateProtect.
 Check (C01_index_invariant : forall ops, Inv (run ops)).
 Check (C01_textselection_annotations : forall ops r t, m_ts_anns (run ops) r t = s_ts_anns (run ops) r t).
@@ -51,3 +51,4 @@ Check (C01_code_comparator_is_total : forall s a b c,
   /\ (interp arms s a b <> Gt -> interp arms s b c <> Gt -> interp arms s a c <> Gt)).
 Print Assumptions C01_code_comparator_is_total.
 Print Assumptions C01_counting_shortcuts.
+Print Assumptions C01_target_walk_terminates.
